@@ -477,7 +477,7 @@ def optional_models(ctx: Ctx, eng: morph.Engine, n: int):
 def run(ctx: Ctx):
     eng = morph.Engine(ctx)
     optional_models(ctx, eng, ctx.budget(25, 600))
-    specs = eng.gen_specs(ctx.budget(160, 2500), 3 if ctx.tier == "quick" else 4, literal_unions=True)
+    specs = eng.gen_specs(ctx.budget(160, 2500), 3 if ctx.tier == "quick" else 4, literal_unions=True, generic_models=True)
     # correspondences of the model the theorem is about
     drecs = eng.dump_records(specs, suite="dump", n_values=2)
     recs = eng.load_records(specs, suite="load", n_valid=2, n_corrupt=1, n_hostile=0)
@@ -519,7 +519,7 @@ def search(ctx: Ctx):
     self_models(ctx, eng, 300)
     policy_layout_roundtrips(ctx, 1000)
     generic_model_roundtrips(ctx, eng)
-    for spec in eng.gen_specs(2000, 4, literal_unions=True):
+    for spec in eng.gen_specs(2000, 4, literal_unions=True, generic_models=True):
         if eng.real.dump("DISABLE", True, spec.hint, None).get("r") == "no-dumper":
             continue
         for _ in range(3):
